@@ -90,7 +90,7 @@ impl C05 {
         let input = || json!({"f": show(&f), "g": show(&g), "h": show(&h), "a": a, "b": b});
         let (lf, lg, lh) = (to_strict(&f), to_strict(&g), to_strict(&h));
         let (fs, ft, gt, hs, ht) = (f.src_type(), f.tgt_type(), g.tgt_type(), h.src_type(), h.tgt_type());
-        let kind = r.below(39);
+        let kind = r.below(40);
         match kind {
             0 => { if let Some(x) = lib(ctx, "identity", "any", &input, || S::identity(sf(a.clone()))) { typed(ctx, "identity", &x, &a, &a, &input); } }
             1 => { if let Some(x) = lib(ctx, "twist", "any", &input, || <S as SymmetricMonoidal>::twist(sf(a.clone()), sf(b.clone()))) { typed(ctx, "twist", &x, &cat(&a, &b), &cat(&b, &a), &input); } }
@@ -241,6 +241,44 @@ impl C05 {
                     if let Some(x) = res {
                         typed_lax(ctx, if kind == 34 { "forget" } else { "forget_monogamous" }, &x, &st.src_type(), &st.tgt_type(), &input);
                     }
+                }
+            }
+            39 => {
+                // zero-sized labels: wire-free diagrams (identity on the unit object, scalars) and compositions whose
+                // arities do or do not match -- every call returns, results are well-formed and typed
+                type U = SOh<(), ()>;
+                let unit = |p: &P| -> POh<(), ()> { p.map_labels(|_| (), |_| ()) };
+                let (uf, ug) = (unit(&f), unit(&h));
+                let (xf, xg) = (to_strict(&uf), to_strict(&ug));
+                let inp = || json!({"f": show(&uf), "g": show(&ug)});
+                let walk_u = |ctx: &mut Ctx, api: &str, x: &U, ns: usize, nt: usize| {
+                    ctx.count("op:unit_labels");
+                    if let Some(p) = walk(ctx, api, "unit_labels", x, &inp) {
+                        ctx.check(p.s.len() == ns && p.t.len() == nt, &format!("{}/promised-type/value/unit_labels", api), || json!({"input": inp(), "observed": show(&p)}));
+                    }
+                };
+                if let Some(i0) = lib(ctx, "identity<()>", "unit_labels", &inp, || U::identity(sf(vec![]))) {
+                    walk_u(ctx, "identity<()>", &i0, 0, 0);
+                    if let Some(ty) = lib(ctx, "source/target<()>", "unit_labels", &inp, || (i0.source().0 .0.len(), i0.target().0 .0.len())) {
+                        ctx.check(ty == (0, 0), "source/target<()>/promised-type/value/unit_labels", || json!({"observed": format!("{:?}", ty)}));
+                    }
+                    if let Some(c) = libd(ctx, "compose<()>", &inp, || i0.compose(&i0)) {
+                        walk_u(ctx, "compose<()>", &c, 0, 0);
+                    }
+                }
+                if let Some(c) = lib(ctx, "compose<()>", "unit_labels", &inp, || xf.compose(&xg)) {
+                    ctx.check(c.is_some() == (uf.t.len() == ug.s.len()), "compose<()>/defined-iff-arities-match/value/unit_labels", || json!({"input": inp(), "observed_some": c.is_some()}));
+                    if let Some(c) = c {
+                        walk_u(ctx, "compose<()>", &c, uf.s.len(), ug.t.len());
+                    }
+                }
+                if let Some(t) = lib(ctx, "tensor<()>", "unit_labels", &inp, || xf.tensor(&xg)) {
+                    walk_u(ctx, "tensor<()>", &t, uf.s.len() + ug.s.len(), uf.t.len() + ug.t.len());
+                }
+                let lxf = to_lax(&uf.to_lax());
+                if let Some(t) = lib(ctx, "to_strict<()>", "unit_labels", &inp, || (LOh::<(), ()>::empty().to_strict(), lxf.to_strict())) {
+                    walk_u(ctx, "to_strict<()>", &t.0, 0, 0);
+                    walk_u(ctx, "to_strict<()>", &t.1, uf.s.len(), uf.t.len());
                 }
             }
             38 => {
@@ -467,8 +505,8 @@ impl C05 {
     }
 }
 
-const KINDS: [&str; 39] = [
-    "delete_nodes", "delete_edges", "serde_round_trip",
+const KINDS: [&str; 40] = [
+    "delete_nodes", "delete_edges", "serde_round_trip", "unit_labels",
     "forget", "forget_monogamous",
     "identity", "twist", "singleton", "tensor_operations", "tensor", "bitor", "dagger", "compose", "shr", "spider", "half_spider", "functor_map_arrow", "identity_functor",
     "optic_map_arrow", "optic_adapt", "to_strict", "from_strict", "lax::identity", "lax::twist", "lax::singleton", "lax::tensor", "lax::compose", "lax_compose", "lax::dagger",
@@ -481,7 +519,7 @@ impl Monitor for C05 {
         "C05"
     }
     fn rule(&self) -> &'static str {
-        "cases: (a) a mixed workload over 39 kinds of public constructor / operation of the strict and lax modules (identity, twist, singleton, tensor_operations, tensor, |, dagger, compose, >>, \
+        "cases: (a) a mixed workload over 40 kinds of public constructor / operation of the strict and lax modules (identity, twist, singleton, tensor_operations, tensor, |, dagger, compose, >>, \
          spider, half_spider, functor and optic application incl. adapt, Identity functors, to_strict / from_strict, lax identity / twist / singleton / tensor / compose / lax_compose / dagger / \
          spider / tensor_assign / quotient, lax functor and lax optic entry points, hypergraph coproduct / discrete / coequalize_vertices, validate() on composites) on seeded well-formed arguments: \
          every returned diagram is walked by the deep well-formedness checker (segment counts, sizes summing to value length, size codomain = sum+1, every incidence and interface entry in range, \
